@@ -260,6 +260,19 @@ def string_model(ex, c, args, guard, site):
         if not isinstance(v, (StrV, StrLit)): return None
         ctx.models_used.add('str::parse::<%s>' % m.group(1))
         return parse_int(ex, as_str(ex, v), m.group(1)), T
+    m = re.match(r'^(?:core::str::<impl str>|std::str::<impl str>|alloc::str::<impl str>|str::<impl str>)::(to_ascii_uppercase|to_ascii_lowercase)$', cs)
+    if m:
+        v = ex.deref(args[0])
+        if not isinstance(v, (StrV, StrLit)): return None
+        st = as_str(ex, v)
+        lo_, hi_, d_ = (97, 122, -32) if m.group(1) == 'to_ascii_uppercase' else (65, 90, 32)
+        buf = []
+        for b in st.buf:
+            if b.hi < lo_ or b.lo > hi_: buf.append(b)
+            elif lo_ <= b.lo and b.hi <= hi_: buf.append(IV(b.t + d_, 'u8', b.lo + d_, b.hi + d_))
+            else: buf.append(IV(z3.If(z3.And(b.t >= lo_, b.t <= hi_), b.t + d_, b.t), 'u8', min(b.lo, max(b.lo, lo_) + d_), max(b.hi, min(b.hi, hi_) + d_)))
+        ctx.models_used.add('str::%s (same length, ASCII letters only)' % m.group(1))
+        return StrV(buf, st.start, st.len), T
     if cs == 'core::str::<impl str>::chars':
         v = ex.deref(args[0])
         if not isinstance(v, (StrV, StrLit)): return None
